@@ -14,6 +14,7 @@ package main
 //           deterministically.  (The property bounds the number of goroutines from above only: fewer are permitted.)
 //   hold=2 (only when the bound is n): the application to v waits until all applications to larger values have finished,
 //           i.e. completion order is descending by value whatever the input order.
+//   hold=3: f only counts (long lists)
 //   hold=0: f sleeps a data-dependent time (completion order is a pseudo-random permutation of input order).
 // Observation:  res=[…] once=ok maxc=<k|ok> after=ok      (res sorted in RandomOrder mode)
 //   once   every value was passed to f exactly as often as it occurs in the list, nothing else was passed
@@ -41,6 +42,7 @@ type c16Case struct {
 	str    bool
 	hold   bool
 	rev    bool
+	plain  bool // hold=3: f only counts
 	seed   int
 	nest   int // > 0: f itself calls PMap on x, x+1, …, x+nest-1 and returns the sum
 }
@@ -93,6 +95,7 @@ func c16ParseToks(fs []string) (*c16Case, bool) {
 		case "hold":
 			c.hold = v == "1"
 			c.rev = v == "2"
+			c.plain = v == "3"
 		}
 	}
 	return c, true
@@ -123,6 +126,7 @@ type c16Mon struct {
 	open     chan struct{}
 	opened   bool
 	rev      bool
+	plain    bool
 	pending  map[int]int
 	giveUp   bool
 	cond     *sync.Cond
@@ -172,7 +176,7 @@ func (m *c16Mon) apply(v int) {
 			m.mu.Unlock()
 		}
 		time.Sleep(time.Duration(20+(v*13)%60) * time.Microsecond)
-	} else {
+	} else if !m.plain {
 		switch v % 3 {
 		case 0:
 			time.Sleep(time.Duration(v*4) * time.Microsecond)
@@ -243,7 +247,7 @@ func c16Run(line string) string {
 
 // one PMap call with the monitors inside f
 func c16RunOne(c *c16Case, option *fpgo.PMapOption) string {
-	mon := &c16Mon{counts: map[int]int{}, hold: c.hold, bound: c16Bound(c), open: make(chan struct{})}
+	mon := &c16Mon{counts: map[int]int{}, plain: c.plain, hold: c.hold, bound: c16Bound(c), open: make(chan struct{})}
 	if c16GateBroken.Load() {
 		mon.opened = true
 		close(mon.open)
@@ -420,6 +424,13 @@ func c16Gen(tier string, rng *rand.Rand, emit func(string)) map[string]interface
 			}
 		}
 	}
+	// lists longer than 4096 / 8192 elements, f does nothing (anything with a fixed ceiling on a queue or a pool shows only there)
+	long := 0
+	for _, lc := range []string{"n=4097 pool=nil mode=o", "n=4097 pool=3 mode=r", "n=4200 pool=nil mode=r", "n=8193 pool=3 mode=o", "n=8193 pool=nil mode=r"} {
+		emit(fmt.Sprintf("%s ty=i hold=3 seed=%d", lc, rng.Intn(1000)))
+		long++
+		count++
+	}
 	// nested: f calls PMap itself; with no pool size there are as many outer workers as elements, all of them inside f at once (hold=1)
 	nested := 0
 	for _, nc := range []string{"n=1 pool=nil", "n=5 pool=nil", "n=5 pool=2", "n=40 pool=nil", "n=40 pool=3", "n=200 pool=nil", "n=1100 pool=nil", "n=1300 pool=nil"} {
@@ -432,7 +443,7 @@ func c16Gen(tier string, rng *rand.Rand, emit func(string)) map[string]interface
 			count++
 		}
 	}
-	return map[string]interface{}{"exhaustive": false, "reuse_cases": reuse, "nested_cases": nested, "scope": fmt.Sprintf("n in 0..%d x FixedPool in {nil,-1,0,1,2,3,5,n-1,n,n+3} x {ordered,RandomOrder} x {hold,free} x %d list seeds; + n<=12 grid over both element types + n in {97,256,1000} x 5 pool sizes x both modes", maxN, seeds),
+	return map[string]interface{}{"exhaustive": false, "reuse_cases": reuse, "long_list_cases": long, "nested_cases": nested, "scope": fmt.Sprintf("n in 0..%d x FixedPool in {nil,-1,0,1,2,3,5,n-1,n,n+3} x {ordered,RandomOrder} x {hold,free} x %d list seeds; + n<=12 grid over both element types + n in {97,256,1000} x 5 pool sizes x both modes", maxN, seeds),
 		"cases": count, "max_n": maxN}
 }
 
